@@ -111,6 +111,19 @@ def build_corpus(tier):
     acc(inv("vb_takes_fn", "vb_lv<sandbox_callback<int (*)(int), %s>>()" % Mn), "control: invoke with a callback of matching signature")
     acc(inv("vb_takes_s", T("VbW")), "control: invoke with a tainted struct")
     acc(inv("vb_takes_ptr", V("int*")), "control: invoke with a tainted_volatile pointer")
+    # a pointer cannot be conjured from a wrapped integer (nor leak into one) through the sandbox casts
+    for src_t in ("unsigned long", "long", "unsigned int"):
+        rej("auto t = sandbox_reinterpret_cast<int*>(%s); (void)t;" % T(src_t), "sandbox_reinterpret_cast<int*>(tainted<%s>): integer to pointer" % src_t)
+    rej("auto t = sandbox_reinterpret_cast<char*>(%s); (void)t;" % V("unsigned long"), "sandbox_reinterpret_cast<char*>(tainted_volatile<unsigned long>): integer to pointer")
+    rej("auto t = sandbox_reinterpret_cast<unsigned long>(%s); (void)t;" % T("int*"), "sandbox_reinterpret_cast<unsigned long>(tainted<int*>): pointer to integer")
+    rej("auto t = sandbox_static_cast<int*>(%s); (void)t;" % T("unsigned long"), "sandbox_static_cast<int*>(tainted<unsigned long>): integer to pointer")
+    rej("auto t = sandbox_const_cast<int*>(%s); (void)t;" % T("unsigned long"), "sandbox_const_cast<int*>(tainted<unsigned long>): integer to pointer")
+    acc("auto t = sandbox_reinterpret_cast<char*>(%s); static_assert(std::is_same_v<decltype(t), tainted<char*, %s>>, \"%s\"); (void)t;" % (T("int*"), Mn, witness.TYPE_MARK), "control: sandbox_reinterpret_cast between pointer types")
+    # arithmetic of a wrapped integer with a RAW pointer must not produce a wrapped pointer
+    rej("auto t = %s + vb_gp; (void)t;" % T("long"), "tainted<long> + raw int*")
+    rej("auto t = %s - vb_gp; (void)t;" % T("long"), "tainted<long> - raw int*")
+    rej("auto t = %s + vb_gp; (void)t;" % V("long"), "tainted_volatile<long> + raw int*")
+    rej("auto t = %s + vb_gcp; (void)t;" % T("unsigned long"), "tainted<unsigned long> + raw char*")
     # free / stdlib on foreign wrappers
     rej("%s.free_in_sandbox(%s);" % (S, T("int*", other)), "free_in_sandbox with another sandbox type's pointer")
     rej("rlbox::memcpy(%s, %s, %s, 4u);" % (S, T("int*", other), T("int*")), "memcpy with another sandbox type's destination")
